@@ -63,8 +63,9 @@ type ArchiveDecoder struct {
 	d    FormatDecoder
 	dir  string
 	last interface{}
-	// root is set once the first entry (the only one without a filename) was decoded
-	root bool
+	// root is set once the first entry (the only one without a filename) was decoded,
+	// rootIsDir if that entry was a directory
+	root, rootIsDir bool
 }
 
 // NewArchiveDecoder initializes a decoder for a catar archive.
@@ -168,7 +169,16 @@ loop:
 	if name == "" && a.root {
 		return nil, InvalidFormat{"entry without filename"}
 	}
-	a.root = true
+	// Nothing can follow a root that isn't a directory. Such a root replaces the
+	// destination itself, with a symlink for example, and entries following it
+	// would be created through it.
+	if a.root && !a.rootIsDir {
+		return nil, InvalidFormat{"entry after a root that is not a directory"}
+	}
+	if !a.root {
+		a.root = true
+		a.rootIsDir = payload == nil && device == nil && symlink == nil
+	}
 
 	// If it doesn't have a payload or is a device/symlink, it must be a directory
 	if payload == nil && device == nil && symlink == nil {
